@@ -16,12 +16,14 @@ import (
 	"io"
 	"log"
 	"os"
+	"runtime"
 	"runtime/debug"
 	"strings"
 	"testing"
 	"testing/synctest"
 	"time"
 
+	"perkeep.org/pkg/blobserver"
 	"perkeep.org/pkg/index"
 
 	"verif/hs"
@@ -100,6 +102,9 @@ func runHistory(t *testing.T, kind *kvKind, u *universe, hist []int, o runOpts, 
 		}
 		pts, feeds, err = runHistoryInBubble(kind, u, hist, o, ch)
 	})
+	// the out-of-order re-indexing goes through blobserver.Receive, which
+	// registers a hub per Index in a package-level map: forget them
+	blobserver.VerifResetHubs()
 	return
 }
 
@@ -200,7 +205,9 @@ func runHistoryInBubble(kind *kvKind, u *universe, hist []int, o runOpts, ch *ch
 		liveRows := world.DumpKV(l.st.kv)
 		for _, k := range conts {
 			for _, bi := range hist[k.step+1:] {
-				if err := feedAwait(k.in, set.Blobs[bi], ch); err != nil {
+				// simultaneously ready blobs are re-indexed lowest-first here: the order is
+				// enumerated for the uninterrupted run only (the persisted rows must not depend on it)
+				if err := feedAwait(k.in, set.Blobs[bi], &chooser{}); err != nil {
 					return pts, feeds, fmt.Errorf("ReceiveBlob(%s) after restart at step %d: %v", set.Blobs[bi].Name, k.step, err)
 				}
 				feeds++
@@ -434,6 +441,13 @@ func TestCheck(t *testing.T) {
 			}
 			r.oneHistory(sp.kind, sp.set, h, sp.cont)
 			done++
+		}
+		if os.Getenv("VERIF_VERBOSE") != "" {
+			var ms runtime.MemStats
+			runtime.GC()
+			runtime.GC()
+			runtime.ReadMemStats(&ms)
+			fmt.Fprintf(os.Stderr, "%s/%s: %d histories, done %d; heap=%dMB sys=%dMB goroutines=%d t=%v\n", sp.kind.Name, sp.set.Name, len(hs), done, ms.HeapAlloc>>20, ms.Sys>>20, runtime.NumGoroutine(), time.Since(realStart).Round(time.Second))
 		}
 		names := []string{scnPrefix}
 		if sp.kind.fileBacked() {
